@@ -1064,8 +1064,44 @@ class Interp:
         return r if r is not NOTSTATIC else self._comp(n, env, ctx, "dict")
 
     # ------------------------------------------------------------------- calls
+    def _collected(self, n, env, ctx):
+        """list(G) / set(G) / tuple(G) / sorted(G) with G a generator of this module (a generator function call, or an object whose __iter__ is one):
+        the elements are collected by the loop `for x in G: tmp.append(x)`, which the generator fusion reads -> the AST of the collection, or None"""
+        if not (isinstance(n.func, ast.Name) and n.func.id in ("list", "set", "tuple", "sorted", "frozenset") and n.func.id not in env and len(n.args) == 1 and not n.keywords):
+            return None
+        g = n.args[0]
+        if isinstance(g, (ast.GeneratorExp, ast.ListComp, ast.Starred)) or "$outer" in env:
+            return None
+        tmp, x = "_collected_%d_%d" % (n.lineno, n.col_offset), "_item_%d_%d" % (n.lineno, n.col_offset)
+        loop = ast.For(ast.Name(x, ast.Store()), g, [ast.Expr(ast.Call(ast.Attribute(ast.Name(tmp, ast.Load()), "append", ast.Load()), [ast.Name(x, ast.Load())], []))], [], None)
+        first = ast.Assign([ast.Name(tmp, ast.Store())], ast.List([], ast.Load()))
+        for st in (first, loop):
+            ast.copy_location(st, n)
+            ast.fix_missing_locations(st)
+        if self._fuse_generator(loop, env, ctx) is None:
+            return None
+        out = self.exec_block([first, loop], env, ctx)
+        if out is None:
+            raise Inconclusive("collecting a generator leaves the function", n)
+        if out is not env:
+            for k_, v_ in out.items():
+                env[k_] = v_
+        val = env.pop(tmp)
+        env.pop(x, None)
+        if n.func.id == "list":
+            return val
+        env[tmp] = val
+        try:
+            return self.ev(ast.copy_location(ast.Call(n.func, [ast.copy_location(ast.Name(tmp, ast.Load()), n)], []), n), env, ctx)
+        finally:
+            env.pop(tmp, None)
+
     def ev_Call(self, n, env, ctx):
         self.call_sites += 1
+        if isinstance(n.func, ast.Name) and n.func.id in ("list", "set", "tuple", "sorted", "frozenset"):
+            got = self._collected(n, env, ctx)
+            if got is not None:
+                return got
         # super()
         if isinstance(n.func, ast.Name) and n.func.id == "super" and not n.args and "super" not in env:
             if ctx.self_obj is None or ctx.cls is None:
@@ -1167,6 +1203,10 @@ class Interp:
                         raise Inconclusive("namedtuple %s constructed without its field %s" % (fv.name, fld), n)
                     vals[fld] = fv.defaults[j_]
             return NamedTupleV([vals[fld] for fld in fv.fields], fv.fields)
+        if isinstance(fv, ExtRef) and fv.dotted == "len" and len(args) == 1 and not kwargs and isinstance(args[0], ObjV):
+            m_ = self.prog.method(args[0].module, args[0].cls, "__len__")
+            if m_ is not None:
+                return self.call_repo(m_, args[0], [], {}, n, env, ctx)
         if isinstance(fv, ExtRef) and fv.dotted == "collections.namedtuple" and len(args) >= 2 and not (set(kwargs) - {"defaults"}):
             # namedtuple('Name', ['a', 'b']) / 'a b' / 'a, b': a record class with these fields
             nm = fl = None
@@ -1738,6 +1778,14 @@ class Interp:
                 and any(isinstance(e_, (ast.Tuple, ast.List)) for e_ in s.iter.elts):
             # for (x, flag) in ((a, False), (b, True)): a loop over a literal display of records is the sequence of its bodies
             return self._unrolled(s, [self.ev(e_, env, ctx) for e_ in s.iter.elts], env, ctx)
+        if is_for and isinstance(s.iter, ast.Name):
+            # the same with the display bound to a name first (a local `stages = ((a, f), (b, g))`, a module-level dispatch table)
+            try:
+                tv_ = self.ev(s.iter, env, ctx)
+            except Inconclusive:
+                tv_ = None
+            if isinstance(tv_, TupleV) and tv_.kind != ARGS and 0 < len(tv_.items) <= 8 and all(isinstance(x_, TupleV) for x_ in tv_.items):
+                return self._unrolled(s, list(tv_.items), env, ctx)
         if is_for and self.static_rooted(s.iter, env, ctx):
             itv0 = self.ev(s.iter, env, ctx)
             if isinstance(itv0, KwV):
@@ -1800,6 +1848,21 @@ class Interp:
         fused = self._fuse_generator(s, env, ctx)
         if fused is not None:
             return self.exec_block(fused, env, ctx)
+        e_ = s.iter
+        while isinstance(e_, ast.Attribute):
+            e_ = e_.value
+        if isinstance(e_, ast.Name) and not isinstance(s.iter, ast.Call) and (e_.id in env or e_.id == "self"):
+            # `for x in obj`: obj of a class of the repository with an ordinary __iter__ is iterated through what that method returns
+            try:
+                ov = self.ev(s.iter, env, ctx)
+            except Inconclusive:
+                ov = None
+            if isinstance(ov, ObjV) and self.prog.method(ov.module, ov.cls, "__iter__") is not None:
+                import copy
+                s2 = copy.copy(s)
+                s2.iter = ast.copy_location(ast.Call(ast.Attribute(s.iter, "__iter__", ast.Load()), [], []), s.iter)
+                ast.fix_missing_locations(s2.iter)
+                return self._loop(s2, env, ctx, True)
         return self._loop(s, env, ctx, True)
 
     def _fuse_generator(self, s, env, ctx):
@@ -1811,18 +1874,43 @@ class Interp:
         it, counter = s.iter, False
         if isinstance(it, ast.Call) and isinstance(it.func, ast.Name) and it.func.id == "enumerate" and len(it.args) == 1 and not it.keywords and "enumerate" not in env:
             it, counter = it.args[0], True
-        if not isinstance(it, ast.Call) or s.orelse or not isinstance(it.func, (ast.Name, ast.Attribute)):
+        def plain(e):
+            # a name or an attribute chain: evaluating it twice has no effect
+            while isinstance(e, ast.Attribute):
+                e = e.value
+            return isinstance(e, ast.Name)
+        if s.orelse:
+            return None
+        if not isinstance(it, ast.Call):
+            # `for x in obj` with obj an instance of a class of this module whose __iter__ is a generator: the loop over obj.__iter__()
+            if not plain(it) or (isinstance(it, ast.Name) and it.id not in env):
+                return None
+            try:
+                ov = self.ev(it, env, ctx)
+            except Inconclusive:
+                return None
+            if not isinstance(ov, ObjV) or self.prog.method(ov.module, ov.cls, "__iter__") is None:
+                return None
+            it = ast.copy_location(ast.Call(ast.Attribute(it, "__iter__", ast.Load()), [], []), it)
+            ast.fix_missing_locations(it)
+        if not isinstance(it.func, (ast.Name, ast.Attribute)):
             return None
         if isinstance(it.func, ast.Name) and (it.func.id in env or ctx.func is not None and it.func.id in ctx.func.locals):
-            return None
-        if isinstance(it.func, ast.Attribute) and not (isinstance(it.func.value, ast.Name) and it.func.value.id == "self" and ctx.func is not None and ctx.func.cls):
             return None
         func = None
         if isinstance(it.func, ast.Name):
             k = self.prog.lookup("%s.%s" % (ctx.mod.name, it.func.id))
             func = k[1] if k[0] == "func" else None
         else:
-            func = self.prog.method(ctx.mod, ctx.func.cls, it.func.attr)
+            if not plain(it.func.value) or (isinstance(it.func.value, ast.Name) and it.func.value.id not in env and it.func.value.id != "self"):
+                return None
+            try:
+                ov = self.ev(it.func.value, env, ctx)
+            except Inconclusive:
+                return None
+            if not isinstance(ov, ObjV):
+                return None
+            func = self.prog.method(ov.module, ov.cls, it.func.attr)
         if func is None or not getattr(func, "is_generator", False) or func.module is not ctx.mod or func.decorators or func.qname in ctx.stack or \
                 (ctx.func is not None and func.qname == ctx.func.qname) or func.vararg or func.kwarg:
             return None
